@@ -69,6 +69,15 @@ def generate(rng, index, tier):
         scn['cuts'] = 'sample'
         scn['cli'] = False
     if rng.chance(0.15) and threads:
+        # two samples of one thread with the same action id: the first asks for a user stack but its header was lost, the second
+        # is complete (what is reported for the first must not change when the second arrives)
+        th = rng.pick(threads)
+        aid = rng.pick([1, 2, 7])
+        th['ops'].append(worlds.op_sample(rng, flags=rng.pick([8, 9]), thd=None, uhdr=None, udata=[], actionid=aid))
+        if rng.chance(0.5):
+            th['ops'].append(worlds.op_single(rng, 'MACH_MKRUNNABLE'))
+        th['ops'].append(worlds.op_sample(rng, flags=8, thd=None, uhdr=(1, 3), udata=[[0x1000, 0x2000, 0x3000, 0]], actionid=aid))
+    if rng.chance(0.15) and threads:
         # record arguments that look like a chunk header: the event tag, a small size, eight zero bytes
         th = rng.pick(threads)
         th['ops'].insert(rng.randrange(len(th['ops']) + 1), {'k': 'raw', 'id': 0x40c0010, 'q': 0, 'a': [0x1e00, 64 * rng.randint(1, 3), 0, rng.word()]})
